@@ -310,6 +310,7 @@ class Interp:
         self.on_attr_store = None
         self.update_params_checks = []
         self.stmt_hook = None
+        self.top_log = []          # (why, function, node) for primary unknowns (not propagated ones)
         self.index_checks = []     # (node, ok) subscripts whose index and axis both had a named space
         self.sub_axes = {}         # axis name -> axis name it is a prefix of (e.g. L -> Lmax)
         self.force_seeds = False
@@ -663,6 +664,8 @@ class Interp:
             v = Top("unhandled " + type(node).__name__)
         if is_top(v):
             self.n_top += 1
+            if "of Top" not in v.why and "Top" != v.why:
+                self.top_log.append((v.why, fr.qual, node))
         return v
 
     def _eval(self, node, fr):
@@ -996,6 +999,8 @@ class Interp:
 
     def broadcast(self, a, b, node, opname="op", inplace=False):
         """elementwise operation with numpy broadcasting"""
+        if opname == "Div" and isinstance(b, Arr) and "softmax" in b.tags:
+            self.event("unsafe-denominator", node, f"division by a softmax output {b!r}: its entries underflow to exactly 0")
         if is_top(a) or is_top(b):
             return Top("broadcast of Top")
         if isinstance(a, (NoneV, StrV)) or isinstance(b, (NoneV, StrV)):
@@ -1213,7 +1218,7 @@ class Interp:
             return None
         if not out:
             return Num(base.elem, space=base.space)
-        return Arr(out, base.elem, base.space)
+        return Arr(out, base.elem, base.space, base.tags & frozenset({"softmax"}))
 
     def check_index(self, idx, ax, node, base):
         sp = idx.space
